@@ -397,11 +397,22 @@ impl<'dbg> FatDieRef<'dbg, Function> {
     }
 
     pub fn prolog_end_place(&self) -> Result<PlaceDescriptor<'_>, Error> {
-        let mut place = self.prolog_start_place()?;
+        let start = self.prolog_start_place()?;
+        let end_addr = self.end_instruction()?;
+
+        let mut place = start.clone();
         while !place.prolog_end {
             match place.next() {
-                None => break,
-                Some(next_place) => place = next_place,
+                Some(next_place) if next_place.address < end_addr => place = next_place,
+                // No row of this function is marked as the end of the prologue (C compilers and
+                // assemblers do not mark it): take the second row of the function, the place
+                // where the line changes for the first time, and never a row of another function.
+                _ => {
+                    return Ok(start
+                        .next()
+                        .filter(|second| second.address < end_addr)
+                        .unwrap_or(start));
+                }
             }
         }
 
